@@ -3,10 +3,17 @@
    Model/Skeleton.v; the thresholds are the GENERATED formulas (gen/GenThreshold.v). *)
 From Coq Require Import QArith List Arith ZArith Bool.
 From MdpaxV Require Import Model.ListUtil Model.QFun Model.MDP Model.Bellman Model.Batching Model.Skeleton Model.Solvers
-     Proofs.LoopP Proofs.SkeletonP Proofs.C08P Proofs.C18P.
-From MdpaxGen Require Import GenLoops GenThreshold GenBatch.
+     Model.Kernel Model.KernelOps Proofs.LoopP Proofs.SkeletonP Proofs.C08P Proofs.C18P Proofs.GenKernelP.
+From MdpaxGen Require Import GenLoops GenThreshold GenBatch GenKernel.
 Import ListNotations.
 Open Scope Q_scope.
+
+(* ---------- tie: the convergence measures GENERATED from _get_span / _get_max_diff are the measures the solver
+   state machines compare with the threshold (span = max(delta) - min(delta) of the SIGNED changes; max_diff = max |delta|) *)
+Theorem generated_measures_are_the_modelled_measures : forall new old, length new = length old -> (0 < length new)%nat ->
+  gen_get_span new old == span_diff new old /\ gen_get_max_diff new old == maxabs_diff new old.
+Proof. exact (fun new old HL Hn => conj (gen_span_eq new old HL Hn) (gen_max_diff_eq new old HL Hn)). Qed.
+Print Assumptions generated_measures_are_the_modelled_measures.
 
 (* ---------- tie: each solver's solve() = interpretation of the skeleton translated from ITS source *)
 Theorem vi_solve_follows_source : forall g eps SW POL t ckpt freq k st,
